@@ -408,7 +408,7 @@ func visitInstr(fr *frame, instr ssa.Instruction) continuation {
 		x := fr.get(instr.X)
 		switch x := x.(type) {
 		case []value:
-			if t, ok := fr.get(instr.Index).(*sym.Term); ok && len(x) <= 1024 && onlyLoaded(instr) {
+			if t, ok := fr.get(instr.Index).(*sym.Term); ok && onlyLoaded(instr) {
 				fr.set(instr, symElemRef{elems: x, idx: t, it: instr.Index.Type()})
 				break
 			}
@@ -419,7 +419,7 @@ func visitInstr(fr *frame, instr ssa.Instruction) continuation {
 				panic(runtimeErr("invalid memory address or nil pointer dereference"))
 			}
 			a := (*x).(array)
-			if t, ok := fr.get(instr.Index).(*sym.Term); ok && len(a) <= 1024 && onlyLoaded(instr) {
+			if t, ok := fr.get(instr.Index).(*sym.Term); ok && onlyLoaded(instr) {
 				fr.set(instr, symElemRef{elems: []value(a), idx: t, it: instr.Index.Type()})
 				break
 			}
